@@ -363,8 +363,7 @@ def run_greenback(req):
                 state["inside"] = extract(state["task"])
                 state["inside_levels"] = list(levels)
                 running_stack_check("sync", state.setdefault("running", []))
-                if not spawn:
-                    greenback.await_(trio.sleep_forever())
+                greenback.await_(trio.sleep_forever())
                 return
             below(spawn, lambda: greenback.await_(as_awaitable(make_async(i + 1)())))
         return sync_fn
@@ -376,8 +375,7 @@ def run_greenback(req):
                 state["inside"] = extract(state["task"])
                 state["inside_levels"] = list(levels)
                 running_stack_check("async", state.setdefault("running", []))
-                if not spawn:
-                    await trio.sleep_forever()
+                await trio.sleep_forever()
                 return
             make_sync(i + 1)()
         return async_fn
@@ -400,20 +398,19 @@ def run_greenback(req):
             n.start_soon(runner)
             await trio.testing.wait_all_tasks_blocked(0.01)
             out["warnings"] = []
-            if not spawn:
-                with warnings.catch_warnings(record=True) as w:
-                    warnings.simplefilter("always")
-                    st = extract(state["task"])
-                out["outside"] = st
-                out["warnings"] = [str(x.message)[:150] for x in w]
-                out["levels"] = list(levels)
+            # (also when the await_ the task is parked in was made by a greenlet started further down, spawn > 0: greenback
+            # resumes that one, and the task's stack goes through it)
+            with warnings.catch_warnings(record=True) as w:
+                warnings.simplefilter("always")
+                st = extract(state["task"])
+            out["outside"] = st
+            out["warnings"] = [str(x.message)[:150] for x in w]
+            out["levels"] = list(levels)
             n.cancel_scope.cancel()
 
     trio.run(main)
     obs = []
-    views = [("inside", state["inside"], state["inside_levels"])]
-    if not spawn:
-        views.insert(0, ("outside", out["outside"], out["levels"]))
+    views = [("outside", out["outside"], out["levels"]), ("inside", state["inside"], state["inside_levels"])]
     for tag, st, lv in views:
         if st.error is not None:
             obs.append({"kind": "error", "tag": tag, "exc": repr(st.error)})
